@@ -16,11 +16,11 @@ PROPERTY = "C06"
 RULE = ("cells = interface x sampler x size x #likelihoods x model backing x likelihood Gaussian form; inside a cell "
         "every prior form (16 Gaussian input forms x 3 mean kinds, GMRF orders 0-2) is crossed with two current states and "
         "the complete perturbation basis; non-trivial = sampler accepted the posterior and the linear part is non-zero")
-BOUND = {"quick": "sizes (m,n) in {(3,3),(2,3)}; 1-2 likelihoods; matrix- and function-backed models; both interfaces + "
+BOUND = {"quick": "sizes (m,n) in {(3,3),(2,3)} + (3,76) above the sparse-storage switch; 1-2 likelihoods; matrix- and function-backed models; both interfaces + "
                   "5-tuple form; UGLA: 2 sizes x location {0, scalar, vector} x scale {1, 0.25}",
          "thorough": "sizes {(2,3),(3,3),(4,2)}; 1-3 likelihoods; all catalogues of the seed; UGLA with 3 beta values"}
 ASSUMPTIONS = [
-    "inner solver run to convergence (maxit=60, tol=1e-13) - results compared at 1e-7",
+    "inner solver run to convergence (maxit=400, tol=1e-13) - results compared at 1e-7",
     "matrix square roots are passed as symmetric roots, for which the R R^T / R^T R conventions coincide "
     "(the convention question is decided in C04/C05)",
     "UGLA: the documentation does not say whether the weights are evaluated at D x_k or D (x_k - location); either "
@@ -29,7 +29,7 @@ ASSUMPTIONS = [
 
 PARAMS = ("cov", "prec", "sqrtcov", "sqrtprec")
 KINDS = ("scalar", "vector", "diag", "dense")
-MAXIT, TOL = 60, 1e-13
+MAXIT, TOL = 400, 1e-13
 
 
 def base_cov(kind, dim, k, salt=0):
@@ -71,6 +71,11 @@ def cells(tier, seed):
                         for kd in KINDS:
                             yield {"sampler": "RTO", "iface": iface, "m": m, "n": n, "nlik": nl, "backing": backing,
                                    "lik": [p, kd], "cat": k, "tier": tier}
+        # one size above the sparse-storage switch of the Gaussian (dim > 75): dense/vector forms of every parameterisation
+        for p in PARAMS:
+            for kd in (("dense",) if tier == "quick" else ("dense", "vector", "scalar")):
+                yield {"sampler": "RTO", "iface": iface, "m": 3, "n": 76, "nlik": 1, "backing": "matrix",
+                       "lik": ["cov", "scalar"], "prior_only": [p, kd], "cat": k, "tier": tier}
         for (m, n) in sizes:
             for p in PARAMS:
                 yield {"sampler": "RTO5", "iface": "legacy" if iface == "legacy" else "exp", "m": m, "n": n,
@@ -156,6 +161,8 @@ def eval_rto(cell):
         prior_forms.append(("gmrf", order, None, "vector"))
     if cell["sampler"] == "RTO5":
         prior_forms = [("tuple", "sqrtprec", "dense", mk) for mk in ("zero", "vector")]
+    if "prior_only" in cell:
+        prior_forms = [("gauss", cell["prior_only"][0], cell["prior_only"][1], "vector")]
     if cell["tier"] == "quick" and cell["sampler"] == "RTO" and (nl > 1 or backing == "function"):
         # keep the quick product small: the full 48 prior forms are crossed with (1 likelihood, matrix);
         # other cells use one representative per parameterisation + GMRF
@@ -213,7 +220,7 @@ def eval_rto(cell):
         mean_ref = cov_ref @ rhs
         maps = []
         ok_run = True
-        for x0 in (np.zeros(n), refs.dyadic_vec(n, k + 4, scale=0.5)):
+        for x0 in (np.zeros(n), refs.dyadic_vec(n, k + 4, scale=0.5))[: (1 if n > 10 else 2)]:
             try:
                 z0, T, aff = affine_probe(lambda e: one_step(use_iface, "LinearRTO", target, x0, e)[0], nd)
             except Exception as e:
@@ -237,7 +244,7 @@ def eval_rto(cell):
         if not close(T @ T.T, cov_ref, 1e-7):
             res.fail("C06|%s|covariance|%s,lik=%s" % (comp, facet, lp), "linear part does not reproduce the posterior covariance", focus=focus,
                      impl=T @ T.T, ref=cov_ref)
-        if not (close(maps[1][0], z0, 1e-7) and close(maps[1][1], T, 1e-7)):
+        if len(maps) > 1 and not (close(maps[1][0], z0, 1e-7) and close(maps[1][1], T, 1e-7)):
             res.fail("C06|%s|depends-on-state|%s" % (comp, facet), "draw depends on the current state", focus=focus)
         # stacked operator: adjoint is the exact transpose of the forward action
         try:
